@@ -34,6 +34,7 @@ func init() {
 	ruleText["R06.10"] = "in the deferred function of runCfg and its in-package callees (callDeferred and Walk excepted), every constant index X.child[k] lies under a test of X.kind or len(X.child) (enclosing if/switch/case, left operand of &&, or an earlier guard that leaves the block)"
 	ruleText["R06.11"] = "in every generator containing reflect.Value.CallSlice, each run-time closure that appends to frame.deferred also contains a CallSlice call (the ellipsis of f(s...) survives deferral)"
 	ruleText["R06.12"] = "in every deferred recover, the store of the recovered value into frame.recovered lies under no condition on frame.recovered itself: a panic raised by a deferred function replaces the one in progress"
+	ruleText["R06.13"] = "in the closures of the generator of the panic builtin, panic(v) with v of static type reflect.Value lies under a condition on v.IsValid()/v.CanInterface(): otherwise the panic carries v.Interface()"
 	ruleText["R06.5"] = "a converting recover assigns Panic{Value: <recovered>, ...} to the error result of its function"
 }
 
@@ -50,6 +51,7 @@ func runC06(c *Config, r *Report) {
 	c06R10(ic, r)
 	c06R11(ic, r, "R06.11")
 	c06R12(ic, r)
+	c06R13(ic, r)
 	// R06.6: defers, recover and panics inside instantiated generic code rest on the AST copy
 	// being identical to a freshly built tree (same analysis as C01/R01.4).
 	sub := newReport("C01")
@@ -972,5 +974,41 @@ func c06R12(ic *IC, r *Report) {
 	}
 	if n == 0 {
 		r.Errorf("R06.12: no deferred recover storing into frame.recovered found (callDeferred and runCfg are expected)")
+	}
+}
+
+// c06R13: panic(x) raises x itself. The interpreter holds x as a reflect.Value; panicking with
+// that reflect.Value makes recover() (and Panic.Value returned by Eval) yield a value of type
+// reflect.Value: r.(string) and r.(error) fail, and the value still designates the variable it
+// was read from. In the generator of the panic builtin, a call panic(v) with v of static type
+// reflect.Value is reached only when v cannot be unwrapped (not valid, or CanInterface false).
+func c06R13(ic *IC, r *Report) {
+	fi := ic.fn(r, "_panic")
+	if fi == nil {
+		return
+	}
+	info := ic.Info
+	n := 0
+	for k, fl := range (&c02ctx{ic: ic}).closuresOf(fi) {
+		for _, c := range callsInBuiltin(info, fl.Body, "panic") {
+			if len(c.Args) != 1 {
+				continue
+			}
+			n++
+			t := info.TypeOf(c.Args[0])
+			wrapped := t != nil && types.TypeString(t, nil) == "reflect.Value"
+			guarded := false
+			for _, g := range pathGuards(fl.Body, c) {
+				s := types.ExprString(g.cond)
+				if g.want && (strings.Contains(s, "IsValid()") || strings.Contains(s, "CanInterface()")) {
+					guarded = true
+				}
+			}
+			r.Check(!wrapped || guarded, "R06.13", fmt.Sprintf("_panic/closure#%d/panics-with-the-value-itself#%d", k+1, n), ic.pos(c.Pos()), "the panic carries the Go value, not its reflect.Value",
+				"the generator of the panic builtin calls panic("+types.ExprString(c.Args[0])+") with a reflect.Value: recover() then returns a reflect.Value (r.(string), r.(error) and switch r.(type) fail, Panic.Value reported by Eval is a reflect.Value) that still designates the variable the operand was read from (a deferred x = 2 changes the value of an earlier panic(x))")
+		}
+	}
+	if n == 0 {
+		r.Errorf("R06.13: no call of the panic builtin found in the closures of _panic")
 	}
 }
